@@ -107,7 +107,11 @@ func (pass *DisjunctionToType) processDisjunction(visitor *Visitor, schema *ast.
 			continue
 		}
 
-		processedBranch := branch
+		// branches can hold disjunctions too (ex: `[](A | null) | C`): they have to be processed as well
+		processedBranch, err := visitor.VisitType(schema, branch)
+		if err != nil {
+			return ast.Type{}, err
+		}
 		processedBranch.Nullable = true
 
 		fields = append(fields, ast.NewStructField(ast.TypeName(processedBranch), processedBranch))
